@@ -18,7 +18,7 @@ LEVEL = 'exploration'
 RULE = ('1-6 top-level tasks whose parameters are generated trees over the supported grammar (NaN excluded), biased to '
         'collections of tasks and enums (the tutorial\'s aggregation pattern), over 12 types incl. NV/NVX (prefix names), vu.TV/'
         'vu2.TV (same qualname in two modules), JV (custom BaseCache format), P2V (PickleCache subclass sharing the pickle__ '
-        'prefix) and ZV (cache=None); all are cached into one storage (LocalStorage, or FsspecStorage on the fsspec LocalFileSystem) by a serial run; then cached_tasks(S) is queried for '
+        'prefix) and ZV (cache=None); all are cached into one storage (LocalStorage, or FsspecStorage on the fsspec LocalFileSystem) by a serial run (1 in 8: a fork run with 2 workers), optionally after the same Lab has already listed its empty storage; then cached_tasks(S) is queried - on the Lab that ran or on a new Lab - for '
         'generated type subsets S from a fresh Lab. Oracle: the returned list matches, one-to-one, the cached tasks (top-level and '
         'nested) whose type is in S - each == the original, same cache_key, result_meta == the meta the caching run attached; '
         'nothing for other types/cache formats; run_tasks(returned) returns the stored values with zero run() calls; and '
@@ -74,7 +74,11 @@ def case(draw):
     )
     tops = draw(st.lists(ptrees.task_tree_from(coll_bias, None), min_size=1, max_size=6))
     queries = draw(st.lists(st.lists(st.sampled_from(TYPE_KEYS), min_size=1, max_size=4, unique=True), min_size=1, max_size=3))
-    return {'tasks': tops, 'queries': [[list(q) for q in qs] for qs in queries], 'storage': draw(st.sampled_from(['local', 'local', 'fsspec_local']))}
+    # history dimension: the same Lab object may already have listed its (then empty) storage before the caching run, the caching
+    # run may execute in worker processes, and the queries may go to the Lab that ran or to a new one
+    history = {'pre_query': draw(st.booleans()), 'same_lab': draw(st.booleans()), 'backend': 'fork' if draw(st.integers(0, 7)) == 0 else 'serial'}
+    return {'tasks': tops, 'queries': [[list(q) for q in qs] for qs in queries], 'storage': draw(st.sampled_from(['local', 'local', 'fsspec_local'])),
+            'history': history}
 
 
 def check(spec: dict, markers_ok: bool = False) -> core.CaseResult:
@@ -98,7 +102,15 @@ def check(spec: dict, markers_ok: bool = False) -> core.CaseResult:
         if spec.get('storage', 'local') != 'local':
             from pbt import storages
             store = storages.make(spec['storage'], store)
-        lab = labtech.Lab(storage=store, runner_backend='serial', notebook=False)
+        hist = spec.get('history') or {'pre_query': False, 'same_lab': False, 'backend': 'serial'}
+        lab = labtech.Lab(storage=store, runner_backend=hist['backend'], max_workers=2 if hist['backend'] != 'serial' else None, notebook=False)
+        if hist['pre_query']:
+            try:
+                early = list(lab.cached_tasks(list(ALL_TYPES.values())))
+            except Exception as ex:
+                return core.CaseResult(findings=[core.Finding(f'C09:cached_tasks-raised-on-an-empty-storage:{type(ex).__name__}', repr(ex)[:300])])
+            if early:
+                findings.append(core.Finding('C09:foreign-task-returned', f'empty storage lists {early[:2]!r}'))
         top_objs = [ptrees.build(t) for t in tops]
         pre = {}
         stack = list(top_objs)
@@ -136,7 +148,7 @@ def check(spec: dict, markers_ok: bool = False) -> core.CaseResult:
         for t in seen_objs.values():
             originals.setdefault((type(t), t.cache_key), t)
         cached_expected = [t for (ty, _), t in originals.items() if ty.__name__ != 'ZV']
-        lab2 = labtech.Lab(storage=store, runner_backend='serial', notebook=False)
+        lab2 = lab if hist['same_lab'] else labtech.Lab(storage=store, runner_backend='serial', notebook=False)
         for t in cached_expected:
             if not lab2.is_cached(t):
                 findings.append(core.Finding('C09:executed-task-not-cached', repr(t)[:200]))
@@ -203,7 +215,7 @@ def check(spec: dict, markers_ok: bool = False) -> core.CaseResult:
     names = {(type(t).__name__) for t in cached_expected}
     mixes = ('NV' in names and 'NVX' in names) or len({type(t) for t in cached_expected if type(t).__name__ in ('TV', 'PV')}) >= 2
     deep = any(ptrees.nested_depth_of(t, ('task', 'enum')) >= 2 for t in tops)
-    labels = [f'n_cached={min(len(cached_expected), 8)}']
+    labels = [f'n_cached={min(len(cached_expected), 8)}', f'history=pre_query:{hist["pre_query"]},same_lab:{hist["same_lab"]},{hist["backend"]}']
     if mixes:
         labels.append('prefix_or_same_named_types_mixed')
     if deep:
